@@ -410,7 +410,14 @@ impl<'a> Kind<'a> for &'a [u8] {
         Ok(p.to_slice().map(|s: &'a [u8]| slice_val(s.as_ptr() as usize, s.len())).bxd())
     }
 }
-impl<'a, It: Iterator<Item = char> + 'a> Kind<'a> for chumsky::input::Stream<It> {
+// C19: slices and streams of tokens with observable ownership (every clone the library makes is tracked)
+impl<'a> Kind<'a> for &'a [crate::errs::KT] {
+    const NAME: &'static str = "tslice";
+    value_impl!('a);
+    value_set_impl!('a);
+    by_ref_impl!();
+}
+impl<'a, T: Tok, It: Iterator<Item = T> + 'a> Kind<'a> for chumsky::input::Stream<It> {
     const NAME: &'static str = "stream";
     value_impl!('a);
     value_set_impl!('a);
